@@ -531,8 +531,8 @@ Section Ring32Inv.
   Proof.
     intros Ha Hb Hg. destruct (inv_ok b Hb Hg) as (r & Er & Hr & Hi). pose proof hp3.
     unfold div32. rewrite Er. eexists. split; [reflexivity|].
-    destruct (mulin_ok F HF r a Hr Ha) as [Hc Hv]. split; [exact Hc|]. rewrite Hv.
-    rewrite Z.mul_mod_idemp_l by lia. replace (V r * V a * V b) with (V a * (V r * V b)) by ring.
+    destruct (mul_ok F HF a r Ha Hr) as [Hc Hv]. split; [exact Hc|]. rewrite Hv.
+    rewrite Z.mul_mod_idemp_l by lia. replace (V a * V r * V b) with (V a * (V r * V b)) by ring.
     rewrite <- Z.mul_mod_idemp_r by lia. rewrite Hi. rewrite Z.mul_1_r.
     rewrite (convert_fm F HF a Ha). apply Z.mod_small. apply (fm_can F HF).
   Qed.
@@ -545,6 +545,55 @@ Section Ring32Inv.
     rewrite Z.mul_mod_idemp_l by lia. replace (V a * V r * V b) with (V a * (V r * V b)) by ring.
     rewrite <- Z.mul_mod_idemp_r by lia. rewrite Hi. rewrite Z.mul_1_r.
     rewrite (convert_fm F HF a Ha). apply Z.mod_small. apply (fm_can F HF).
+  Qed.
+
+  (* inv / div / divin WITHOUT the unit hypothesis (composite moduli: zero divisors, and 0): the extended-Euclid loop always
+     terminates within its fuel, the cofactor is a residue, and the result satisfies the Bezout relation *)
+  Theorem inv_any a : can a ->
+    exists r, inv F a = Some r /\ can r /\ eqm p (V r * V a) (Z.gcd a p) /\ (a = 0 -> r = 0).
+  Proof.
+    intros Ha. pose proof p_small_s32 as Hs. pose proof hp3. unfold canon in Ha. pose proof (p_lt_W F HF) as HpW.
+    assert (Hb3 : can (m_B3p F)) by (rewrite (wf_B3p F HF); apply Z.mod_pos_bound; lia).
+    unfold inv. rewrite (s32_small a) by lia. rewrite (s32_small p) by lia. unfold invext.
+    destruct (extended_euclid_spec s32 2147483647 (proj2 u32_s32_small_facts) a p ltac:(lia) (Z.gcd p a) ltac:(lia) eq_refl)
+      as (t & Et & Ht & Hc).
+    rewrite Et.
+    assert (Htp : t < p \/ a = 0).
+    { destruct (Z.eq_dec a 0) as [E0|N0]; [right; exact E0|]. left. destruct (Z.eq_dec t p) as [->|]; [|lia]. exfalso.
+      rewrite (eqm_mul_n_l p a) in Hc. unfold eqm in Hc. rewrite Z.mod_0_l in Hc by lia. symmetry in Hc. apply Z.mod_divide in Hc; [|lia].
+      pose proof (Z.gcd_divide_r p a) as Hd. pose proof (Z.gcd_nonneg p a) as Hn.
+      assert (Hpos : 0 < Z.gcd p a) by (destruct (Z.eq_dec (Z.gcd p a) 0) as [E|]; [apply Z.gcd_eq_0_l in E; lia | lia]).
+      assert (Ha0 : 0 < a) by lia.
+      pose proof (Z.divide_pos_le _ _ Hpos Hc). pose proof (Z.divide_pos_le _ _ Ha0 Hd). lia. }
+    destruct (Z.eq_dec a 0) as [E0|N0].
+    - (* a = 0: the loop returns at once with the cofactor 0 *)
+      subst a. unfold extended_euclid in Et. cbn [ee_loop Z.eqb Z.abs Z.to_nat] in Et. cbn [andb Z.ltb Z.compare] in Et.
+      injection Et as Et _. subst t. cbn [Z.ltb Z.compare]. rewrite (u32_small 0) by lia. rewrite Z.mul_0_l. rewrite (u32_small 0) by lia.
+      rewrite (redc_fm F HF 0) by (unfold in_range; nia). rewrite from_mg_0.
+      exists 0. split; [reflexivity|]. split; [unfold canon; lia|]. split; [|reflexivity].
+      rewrite (convert_fm F HF 0) by (unfold canon; lia). rewrite from_mg_0.
+      rewrite Z.mul_0_r. rewrite Z.gcd_0_l. rewrite Z.abs_eq by lia. symmetry. apply eqm_n.
+    - destruct Htp as [Htp|]; [|contradiction]. destruct (Z.ltb_spec t 0); [lia|].
+      assert (Ct : can t) by (unfold canon; lia).
+      rewrite (u32_small t) by lia.
+      destruct (sq_W F HF t (m_B3p F) Ct Hb3) as [E R]. rewrite E. rewrite (redc_fm F HF _ R).
+      eexists. split; [reflexivity|]. split; [apply (fm_can F HF)|]. split; [|intros; contradiction].
+      rewrite (convert_fm F HF (fm (t * m_B3p F))) by apply (fm_can F HF). rewrite (convert_fm F HF a) by (unfold canon; lia).
+      rewrite !from_mg_eqm. rewrite (wf_B3p F HF). rewrite (mod_eqm p (B32 * B32 * B32)).
+      replace (t * (B32 * B32 * B32) * Bi * Bi * (a * Bi)) with ((t * a) * ((B32 * Bi) * (B32 * Bi) * (B32 * Bi))) by ring.
+      rewrite BBi, Hc. rewrite !Z.mul_1_r. rewrite Z.gcd_comm. reflexivity.
+  Qed.
+
+  Theorem div_any a b : can a -> can b ->
+    (exists q, div32 F a b = Some q /\ can q /\ eqm p (V q * V b) (V a * Z.gcd b p)) /\
+    (exists q, divin F a b = Some q /\ can q /\ eqm p (V q * V b) (V a * Z.gcd b p)).
+  Proof.
+    intros Ha Hb. destruct (inv_any b Hb) as (r & Er & Hr & Hi & _). pose proof hp3.
+    unfold div32, divin. rewrite Er.
+    destruct (mul_ok F HF a r Ha Hr) as [Hc Hv]. destruct (mulin_ok F HF a r Ha Hr) as [Hc' Hv'].
+    split; eexists; (split; [reflexivity|]); (split; [assumption|]).
+    - rewrite Hv. rewrite (mod_eqm p). replace (V a * V r * V b) with (V a * (V r * V b)) by ring. rewrite Hi. reflexivity.
+    - rewrite Hv'. rewrite (mod_eqm p). replace (V a * V r * V b) with (V a * (V r * V b)) by ring. rewrite Hi. reflexivity.
   Qed.
 
   (* isUnit on the stored element; gcd(stored, p) = gcd(value, p) because B is invertible modulo p *)
@@ -604,12 +653,14 @@ Section Ring32Inv.
   Proof. intros Hx. unfold canon in Hx. pose proof p_small_s32. unfold s64, W64. rewrite Z.mod_small by lia. lia. Qed.
   Theorem init_int32_id : Init_identity init_int32.
   Proof. intros x Hx. unfold init_int32. rewrite (s64_can x Hx). apply init_int64_id. exact Hx. Qed.
+  Lemma u64_can x : can x -> u64 x = x.
+  Proof. intros Hx. unfold canon in Hx. pose proof p_small_s32. unfold u64, W64. apply Z.mod_small. lia. Qed.
   Theorem init_uint32_id : Init_identity init_uint32.
-  Proof. intros x Hx. unfold init_uint32. rewrite (s64_can x Hx). apply init_int64_id. exact Hx. Qed.
+  Proof. intros x Hx. unfold init_uint32. rewrite (u64_can x Hx). apply init_uint64_id. exact Hx. Qed.
   Theorem init_longlong_id : Init_identity init_longlong.
   Proof. intros x Hx. unfold init_longlong. rewrite (s64_can x Hx). apply init_int64_id. exact Hx. Qed.
   Theorem init_ulonglong_id : Init_identity init_ulonglong.
-  Proof. intros x Hx. unfold init_ulonglong. rewrite (s64_can x Hx). apply init_int64_id. exact Hx. Qed.
+  Proof. intros x Hx. unfold init_ulonglong. rewrite (u64_can x Hx). apply init_uint64_id. exact Hx. Qed.
 
   (* convert is a bijection of [0,p): init after convert gives the element back *)
   Theorem convert_init a : can a -> can (V a) /\ init_uint32 F (V a) = a.
@@ -761,6 +812,21 @@ Definition M32_inv_div_stmt : Prop := forall p F, Ring32 p F ->
   (exists q, div32 F a b = Some q /\ canon p q /\ (V q * V b) mod p = V a) /\
   (exists q, divin F a b = Some q /\ canon p q /\ (V q * V b) mod p = V a) /\
   isUnit F b = Some true.
+(* the same WITHOUT the unit hypothesis: every stored b in [0,p), zero divisors of composite p and 0 included *)
+Definition M32_inv_div_any_stmt : Prop := forall p F, Ring32 p F ->
+  let V := convert F in forall a b, canon p a -> canon p b ->
+  (exists r, inv F b = Some r /\ invin F b = Some r /\ canon p r /\ (V r * V b) mod p = Z.gcd b p mod p /\ (b = 0 -> r = 0)) /\
+  (exists q, div32 F a b = Some q /\ canon p q /\ (V q * V b) mod p = (V a * Z.gcd b p) mod p) /\
+  (exists q, divin F a b = Some q /\ canon p q /\ (V q * V b) mod p = (V a * Z.gcd b p) mod p) /\
+  isUnit F b = Some (Z.gcd b p =? 1).
+Lemma M32_inv_div_any : M32_inv_div_any_stmt.
+Proof.
+  intros p F HR V a b Ha Hb. destruct (Ring32_wf p F HR) as [<- HF]. subst V.
+  destruct (inv_any F HF b Hb) as (r & E & Hr & Hi & Hz). destruct (div_any F HF a b Ha Hb) as [D1 D2].
+  split; [exists r; unfold invin; split; [exact E|]; split; [exact E|]; split; [exact Hr|]; split; [exact Hi | exact Hz]|].
+  split; [exact D1|]. split; [exact D2|]. apply (isUnit_ok F HF b Hb).
+Qed.
+
 Lemma M32_inv_div : M32_inv_div_stmt.
 Proof.
   intros p F HR V a b Ha Hb Hg. destruct (Ring32_wf p F HR) as [<- HF]. subst V.
